@@ -198,6 +198,8 @@ type c10Res struct {
 	Regs     []c10RegOut `json:"regs"`
 	Derived4 *c10RegOut  `json:"derived4"`
 	Derived6 *c10RegOut  `json:"derived6"`
+	Direct4  *c10RegOut  `json:"direct4"`
+	Direct6  *c10RegOut  `json:"direct6"`
 	Meta     interface{} `json:"meta"`
 }
 
@@ -418,6 +420,30 @@ func c10Run(t *testing.T, srv *c10Redis, c c10Case) (res c10Res) {
 		for _, r := range regs {
 			if r == nil {
 				continue
+			}
+			rm.registeredDecoys = NewRegisteredDecoys()
+			for k, v := range c10Transports {
+				_ = rm.AddTransport(k, v)
+			}
+			rm.AddRegistration(r)
+			rm.MarkActive(r)
+		}
+		// the public constructor called directly for both families, on the zero-filled message as
+		// its callers (parseRegMessage, util/station-debug) hand it over
+		for _, v6 := range []bool{false, true} {
+			w2 := proto.Clone(w).(*pb.C2SWrapper)
+			if w2.GetRegistrationAddress() == nil {
+				w2.RegistrationAddress = make([]byte, 16)
+			}
+			r, err := rm.NewRegistrationC2SWrapper(w2, v6)
+			if err != nil || r == nil {
+				continue
+			}
+			o := c10RegOf(r)
+			if v6 {
+				res.Direct6 = &o
+			} else {
+				res.Direct4 = &o
 			}
 			rm.registeredDecoys = NewRegisteredDecoys()
 			for k, v := range c10Transports {
